@@ -628,14 +628,9 @@ func lexInsideTag(l *lexer) stateFn {
 
 func lexNegative(l *lexer) stateFn {
 	// is it unary or binary op?
-	// unary if it starts a group ('{' or '(') or an op came just before.
-	var lastType = l.lastEmit.typ
-	if lastType == itemInvalid ||
-		lastType.isOp() ||
-		lastType == itemLeftDelim ||
-		lastType == itemCase ||
-		lastType == itemComma ||
-		lastType == itemLeftParen {
+	// binary if the previous token ends a value (a literal, an identifier, a
+	// data reference or a closing bracket), else unary.
+	if !endsValue(l.lastEmit.typ) {
 		// is it a negative number?
 		if l.peek() >= '0' && l.peek() <= '9' {
 			l.backup()
@@ -646,6 +641,19 @@ func lexNegative(l *lexer) stateFn {
 		l.emit(itemSub)
 	}
 	return lexInsideTag
+}
+
+// endsValue returns true if a token of the given type can be the last token of
+// an operand, in which case a following '-' is the binary operator.
+func endsValue(typ itemType) bool {
+	switch typ {
+	case itemNull, itemBool, itemInteger, itemFloat, itemString,
+		itemIdent, itemDollarIdent, itemDotIdent, itemQuestionDotIdent,
+		itemDotIndex, itemQuestionDotIndex,
+		itemRightBracket, itemRightParen:
+		return true
+	}
+	return false
 }
 
 // lexSoyDoc emits:
